@@ -496,14 +496,36 @@ fn aim_pin(seed: u64, policy: &str) -> Script {
 /// or file end (where a call that really wrote would pad or roll over).
 fn aim_noop(seed: u64, policy: &str) -> Script {
     let mut rng = Rng(seed ^ 0xF6);
-    let queues = names(&mut rng, 3);
+    let queues = names(&mut rng, 4);
     let mut live = Live::new(format!("aim-noop-{seed}"), policy, queues, seed);
     live.push(Step::Create { q: 0 });
     live.push(Step::Create { q: 1 });
+    let mut q3_exists = false;
     for _ in 0..2 + live.rng.below(3) {
         let gap = live.rng.below(9) as usize;
         let to_file = live.rng.chance(60);
         live.fill_to(0, gap, to_file);
+        if live.rng.chance(50) {
+            // leave an unreferenced file behind: every queue vacated, then a create_queue whose
+            // position entry does not fit any more rolls over (create_queue runs no GC pass); the
+            // calls below must not be the ones that collect it
+            if q3_exists {
+                live.push(Step::Delete { q: 3 });
+            }
+            if let Some(last) = live.last_position(1) {
+                live.push(Step::Truncate { q: 1, p: last });
+            }
+            // room for the truncate entry of queue 0 plus less than the position entry of queue 3
+            let own0 = 7 + live.entry_overhead(0);
+            let own3 = 7 + live.entry_overhead(3);
+            let rest = 8 + live.rng.below((own3 - 8) as u64) as usize;
+            live.fill_to(0, own0 + rest, true);
+            if let Some(last) = live.last_position(0) {
+                live.push(Step::Truncate { q: 0, p: last });
+            }
+            live.push(Step::Create { q: 3 });
+            q3_exists = true;
+        }
         let next = live.last_position(0).map(|last| last + 1).unwrap_or(0);
         // the no-op shapes, in random order
         let mut shapes: Vec<Step> = vec![
